@@ -3,6 +3,7 @@ package main
 import (
 	"bytes"
 	"fmt"
+	"strings"
 
 	"github.com/free5gc/ike/security/encr"
 )
@@ -95,7 +96,7 @@ func evalC10Enc(c *Ctx, e string, key, plain, script []byte, fails []int) error 
 		faulty = true
 	}
 	if faulty {
-		if ct != nil || impl == "fault" {
+		if ct != nil || impl == "fault" || !strings.HasPrefix(impl, "(err ") {
 			fail("a failing random source produced a ciphertext or a crash", "error", impl)
 		}
 		return nil
